@@ -219,20 +219,43 @@ let diff_sections a b =
     | [], [] -> [] | _ -> [i] in
   go 0 sa sb
 
+(* C06: lines "Q N BlockIndex F M PrimaryIndex p0 .. p255" printed by the real library *)
+let quorum_mode file =
+  let ic = open_in file in
+  let n = ref 0 and bad = ref 0 and vals = ref 0 in
+  (try while true do
+    let line = input_line ic in
+    let t = { toks = List.filter (fun s -> s <> "") (String.split_on_char ' ' line) } in
+    if next t = "Q" then begin
+      incr n;
+      let nn = zi t in let h = zi t in let f = zi t in let m = zi t in let pidx = zi t in
+      let ps = List.map z_of_string t.toks in
+      let okf = quorum_F nn = f and okm = quorum_M nn = m and okp = quorum_primary h Z0 nn = pidx in
+      let badv = ref (-1) in
+      List.iteri (fun v p -> incr vals; if quorum_primary h (z_of_int v) nn <> p && !badv < 0 then badv := v) ps;
+      if not (okf && okm && okp && !badv < 0 && List.length ps = 256) then begin
+        incr bad;
+        Printf.printf "QDIFF N=%s BlockIndex=%s impl F=%s M=%s primary=%s model F=%s M=%s primary=%s first-bad-view=%d\n"
+          (zs nn) (zs h) (zs f) (zs m) (zs pidx) (zs (quorum_F nn)) (zs (quorum_M nn)) (zs (quorum_primary h Z0 nn)) !badv end
+    end
+  done with End_of_file -> ());
+  Printf.printf "QSUMMARY contexts %d values %d disagreements %d\n" !n (!vals + 3 * !n) !bad
+
 let () =
+  if Array.length Sys.argv > 2 && Sys.argv.(1) = "--quorum" then (quorum_mode Sys.argv.(2); exit 0);
   let ic = if Array.length Sys.argv > 1 then open_in Sys.argv.(1) else stdin in
   let states : (int, nstate) Hashtbl.t = Hashtbl.create 16 in
   let cfg = ref { cfg_inc = z_of_int 1000000; cfg_amev = z_of_int (-1); cfg_dyn = false } in
   let ops = ref 0 and bad = ref 0 and calls = ref 0 and lineno = ref 0 and run = ref 0 in
   let cur : (int * event * string) option ref = ref None in
-  let script = ref [] and kinds = ref [] in
+  let script = ref [] and kinds = ref [] and tags = ref [] in
   let sigs : (string, int) Hashtbl.t = Hashtbl.create 1024 in
   let note_sig desc outcome =
     let opk = (match String.split_on_char ' ' desc with "M" :: t :: _ -> "M" ^ t | k :: _ -> k | [] -> "?") in
     let ks = List.sort_uniq compare !kinds in
     let key = opk ^ ":" ^ outcome ^ ":" ^ String.concat "," ks in
     Hashtbl.replace sigs key (1 + try Hashtbl.find sigs key with Not_found -> 0) in
-  let disagree n desc fmt = incr bad; Printf.printf "DISAGREE run=%d line=%d node=%d op=[%s] " !run !lineno n desc; Printf.printf fmt in
+  let disagree n desc fmt = incr bad; Printf.printf "DISAGREE run=%d line=%d node=%d tags=%s op=[%s] " !run !lineno n (String.concat "," ("-" :: !tags)) desc; Printf.printf fmt in
   (try while true do
     let line = input_line ic in
     incr lineno;
@@ -243,7 +266,8 @@ let () =
          run := ii t; ignore (next t); ignore (next t); ignore (next t);
          let inc = zi t in let am = zi t in let dyn = bb t in
          cfg := { cfg_inc = inc; cfg_amev = am; cfg_dyn = dyn }
-     | "OP" -> let n = ii t in let desc = String.concat " " t.toks in cur := Some (n, event t, desc); script := []; kinds := []
+     | "OP" -> let n = ii t in let desc = String.concat " " t.toks in cur := Some (n, event t, desc); script := []; kinds := []; tags := []
+     | "TAG" -> tags := t.toks @ !tags
      | "C" -> (match t.toks with k :: _ -> kinds := k :: !kinds | [] -> ()); script := call t :: !script; incr calls
      | "PANIC" ->
          (match !cur with
@@ -272,8 +296,10 @@ let () =
                    else note_sig desc "ok"
                | Mismatch p ->
                    let k = int_of_nat p in
-                   let ck = (try List.nth (List.rev !kinds) k with _ -> "END") in
-                   disagree n desc "kind=MISMATCH pos=%d of=%d code_call=%s\n" k (List.length sc) ck
+                   let ks = List.rev !kinds in
+                   let ck = (try List.nth ks k with _ -> "END") in
+                   let rest = List.sort_uniq compare (List.filteri (fun i _ -> i >= k) ks) in
+                   disagree n desc "kind=MISMATCH pos=%d of=%d code_call=%s rest=%s\n" k (List.length sc) ck (String.concat "," ("END" :: rest))
                | Panic -> disagree n desc "kind=MODEL-PANIC\n"
                | Fatal -> disagree n desc "kind=MODEL-FATAL\n"
                | OutOfFuel -> disagree n desc "kind=MODEL-FUEL\n");
